@@ -1902,8 +1902,12 @@ func (r *Raft) installSnapshot(rpc RPC, req *InstallSnapshotRequest) {
 		return
 	}
 
-	// Increase the term if we see a newer one
-	if req.Term > r.getCurrentTerm() {
+	// Increase the term if we see a newer one, also transition to follower
+	// if we ever get an installSnapshot call (as appendEntries does): only
+	// the leader of this term sends one. A candidate that merely recorded
+	// the sender as its leader would refuse every vote request "since we
+	// have a leader" for as long as it keeps campaigning.
+	if req.Term > r.getCurrentTerm() || (r.getState() != Follower && !r.candidateFromLeadershipTransfer.Load()) {
 		// Ensure transition to follower
 		r.setState(Follower)
 		r.setCurrentTerm(req.Term)
